@@ -5,7 +5,11 @@ from l2common import *
 import streams
 
 THEOREMS = {"C04": ["apply_patch_replay", "apply_patch_verdicts", "verdicts_are_admissible", "section_failure_flag"],
-            "C05": ["reverse_hunk_involutive", "conforming_reverse", "apply_reverse"],
+            "C05": ["reverse_hunk_involutive", "conforming_reverse", "apply_reverse", "section_forward_writes",
+                    "section_reverse_restores", "section_roundtrip", "section_roundtrip_bytes", "section_creates",
+                    "section_reverse_of_creation_removes", "section_deletes", "section_reverse_of_deletion_recreates",
+                    "creation_roundtrip", "deletion_roundtrip", "section_reverse_of_creation_without_E", "rename_forward",
+                    "rename_reverse", "rename_roundtrip"],
             "C06": ["reapply_ignored", "reapply_reversed", "force_no_guess"], "C15": ["dry_run_pure", "dry_run_predicts"], "C16": ["section_ops_allowed", "finalize_ops_allowed", "finalize_removals_allowed", "exec_op_frame"],
             "C17": ["write_now_sets_mode", "refusal_writes_only_rejects"],
             "C18": ["backup_name_spec", "make_backup_for_shape", "ensure_extends", "backup_holds_original", "backup_only_once"]}
@@ -775,6 +779,42 @@ def run(prop, tier, seed):
                 k_, m_, d_ = s0["tree"][sec["path"]]
                 s0["tree"][sec["path"]] = (k_, m_, emit.file_bytes(sec["b"]))
                 scns.append(add_bystanders(rng, s0))
+            # a series of git patches for one file (writes deferred to the end of the run): the one backup the run takes holds
+            # the bytes from before the run, and it is due as soon as ANY of the patches applies imperfectly
+            ser = []
+            for _ in range(n // 5):
+                lines0 = [("%s %d" % (gen.rand_text(rng, True), i_), "L") for i_ in range(rng.randint(12, 18))]
+                cur = list(lines0); text = b""; k = rng.choice([2, 2, 3])
+                spots = sorted(rng.sample(range(1, len(lines0) - 1), k))
+                for i_ in spots:
+                    ops = [(" ", l) for l in cur]; ops[i_] = ("-", cur[i_]); ops.insert(i_ + 1, ("+", (cur[i_][0] + "x", "L")))
+                    text += emit.emit_git("s/f", "s/f", gen.hunks_from_ops(ops, 1), kind="change")
+                    cur = [l for o_, l in ops if o_ != "-"]
+                # the target drifts between the places the patches touch: the earlier ones apply exactly, a later one at an offset
+                drift_at = rng.choice([None, spots[0] + 2, spots[-1] - 1, 0])
+                t0 = list(lines0)
+                if drift_at is not None and all(abs(drift_at - sp) > 1 for sp in spots):
+                    t0.insert(drift_at, ("drifted in", "L"))
+                o = dict(rng.choice([{}, {}, {"bim": 1}, {"posix": 1}, {"bim": 0}, {"b": 1}]))
+                o.update(p=1, i="p.diff")
+                ser.append(dict(tree={"s": ("D", 0o755, b""), "s/f": ("R", 0o644, emit.file_bytes(t0)), "p.diff": ("R", 0o644, text)}, opts=o, umask=0o022, secs=[],
+                                orig=emit.file_bytes(t0)))
+
+            def judge_series18(s, r):
+                o = s["opts"]; out = r["stdout"].decode("latin-1"); after = tree_no_meta(r["tree"])
+                if r["exit"] == 2:
+                    return None
+                mismatch = bool(re.search(r"^Hunk #\d+ (?:FAILED|succeeded at \d+ (?:with fuzz|\(offset))", out, flags=re.M))
+                bim = o["bim"] if "bim" in o else (0 if o.get("posix") else 1)
+                due = bool(o.get("b")) or (bool(bim) and mismatch)
+                bk = after.get("s/f.orig")
+                if due and (bk is None or bk[2] != s["orig"]):
+                    return "a backup was due for s/f (a patch of the series applied imperfectly%s): s/f.orig %s" % (" or -b" if o.get("b") else "", "does not exist" if bk is None else "does not hold the bytes from before the run")
+                if not due and bk is not None:
+                    return "backup s/f.orig was created although none was due"
+                return None
+            _, b6, m6 = l2_family(run_, exe, ser, judge_series18, cls=lambda s, r: "series exit %d" % r["exit"])
+            bad += b6; mism += m6
             _, b2, m2 = l2_family(run_, exe, scns, judge_c18, cls=lambda s, r: "backup opts " + ",".join(sorted(k for k in s["opts"] if k in ("b", "B", "z", "posix", "bim", "N"))))
             bad += b2; mism += m2
         import wide
